@@ -44,8 +44,8 @@ def tsan(bin, pkg="vh_channels", budget_t=100, shards=16, **kw):
     return e
 
 SAN_ASSUME = [
-    "sanitizer slices (thorough): Miri runs with tree borrows (stacked borrows rejects the self-referential futures of "
-    "any async code that hands out a pointer to a pinned slot) and only on the tiny shapes it can afford; ASan/LSan see "
+    "sanitizer slices (thorough): Miri runs with the experimental aliasing models off (stacked borrows rejects the rendezvous futures, tree borrows "
+    "the mpmc Stream registration: questions outside the 20 properties) and only on the tiny shapes it can afford; ASan/LSan see "
     "only heap/stack errors adjacent to red zones and leaks reachable at exit",
 ]
 
